@@ -1,7 +1,8 @@
 (* C17 — lemmas over the translated guard chains (Gen/Choice.v): exhaustive case analysis over
    the finite flag space (24 booleans), driven lazily by the conditions the chains test. *)
-From Coq Require Import Bool.
+From Coq Require Import Bool List String.
 From Verif Require Import Gen.Choice C17.Model.
+Import ListNotations.
 Open Scope bool_scope.
 
 (* destruct the variable tested by the outermost remaining conditional, simplify, repeat *)
@@ -119,3 +120,25 @@ Lemma rt_lemma : forall (X W : Type) (marshal : mech -> X -> W) (unmarshal : mec
   (forall m x, unmarshal m (marshal m x) = x) ->
   forall f x, decX X W unmarshal f (encX X W marshal f x) = x.
 Proof. intros X W ma un Hinv f x. unfold decX, encX. rewrite <- choice_lemma. apply Hinv. Qed.
+
+(* the builtin shortcut is symmetric in every position when the two sides agree on what is builtin *)
+Lemma builtin_pos_lemma : forall (q : position) (b : bool) (f : flags),
+  enc_mech_at q b f = dec_mech_at q b f.
+Proof. intros q b f. unfold enc_mech_at, dec_mech_at. rewrite choice_lemma. reflexivity. Qed.
+
+(* ... and they do: every type the encoder shortcuts is shortcut by the decoder (translated lists) *)
+Lemma builtin_lists_lemma : forallb is_dec_builtin enc_builtin_types = true.
+Proof. vm_compute. reflexivity. Qed.
+
+Lemma builtin_types_lemma : forall (t : string) (q : position) (f : flags),
+  is_enc_builtin t = true -> enc_mech_at q (is_enc_builtin t) f = dec_mech_at q (is_dec_builtin t) f.
+Proof.
+  intros t q f H. assert (D : is_dec_builtin t = true).
+  { pose proof builtin_lists_lemma as L. rewrite forallb_forall in L. apply L.
+    unfold is_enc_builtin in H. apply existsb_exists in H. destruct H as [x [Hin Hx]].
+    apply String.eqb_eq in Hx. subst. exact Hin. }
+  rewrite H, D. apply builtin_pos_lemma.
+Qed.
+
+Lemma time_is_builtin_lemma : is_enc_builtin "time.Time" = true /\ is_dec_builtin "time.Time" = true.
+Proof. vm_compute. split; reflexivity. Qed.
